@@ -7,6 +7,40 @@ The rules locate their subjects by role (the value compared with ``self.signatur
 the fields of the ``EncryptedPacket`` that is built, the stream those arguments are read from ...) on the
 normalised code with single-definition temporaries inlined, and decide on the CFG.  A subject that cannot be
 located is reported as undecided, a located subject that does not satisfy the condition as violated.
+
+Technique
+---------
+Numbers refer to the ALLOWED list of RULES_GUIDE.md ("What counts as *static* here").  No rule runs code of the
+analysed package, interprets a function body on data chosen by the checker, or enumerates inputs.
+
+R1  (2) CFG dominance / reachability of the decrypt sinks on the CFG pruned under the named assumptions
+    {verify truthy}, {verify truthy, hmac_key falsy}; (1) resolved callees; (3) guard receiver / key argument / decrypted
+    value related through inlined definitions and argument binding; (6) constant default of `verify`.
+R2  (3) the branch test that compares self.signature with the HMAC-derived value, located through inlined definitions
+    (==, !=, compare_digest, not, and/or); (2) all-paths-pass / reachability of the equal and unequal edges, exit classes.
+R3  (1)(3) structural decomposition of the signer and verifier terms HMAC(key, msg, digest).digest()[:N] after inlining
+    (argument binding, update() feeding), structural comparison of the two; (5) digest names taken from the code.
+R4  (6) constant folding of the truncation / read lengths; (3)(4) `<size> - K` recognised in polynomial normal form
+    (absint.sympoly); negative-slice framing [:-K] / [-K:] structurally.  Reference constant: 16 (property text).
+R5  pad(): (3) per return statement the returned term `<data> + <fill> * <count>` / `<data>.ljust(<width>, <fill>)` with
+    temporaries inlined; the count is compared with 16 - len(data) % 16 in polynomial normal form (absint.SymPoly) over the
+    atoms len(data) and (P) % m, using the lemmas L1-L6 stated in `_PadTerms` (division identity, residue unchanged by
+    multiples of m, congruence of x % m and x, `x % m or m`, range of a residue, bit mask of 2**j - 1); (2) residue facts
+    `len(data) % 16 == K` from the dominating branch conditions; (4) interval abstract interpretation
+    (absint.Interp: len(data) >= 0, block size 16) of the count - a count interval over all returns that misses a required
+    pad length 1..16 refutes, an unrecognised spelling is undecided; (6) the fill literal and the parameter defaults
+    (AES.block_size == 16).  encrypt_data / decrypt_data: (1)(3) the returned term is <AES cipher>.encrypt(pad(<data
+    parameter>)) / .decrypt(<data parameter>) unmodified, by inlining and argument binding; (6) block-size argument folded.
+R6  (1) resolved AES.new calls; (3) key / mode / iv argument roles after inlining, forwarding by argument binding;
+    (2) AES.new unreachable on the CFG pruned under {key is None}; exit classes.
+R7  (1)(3) writer term <packed length> + ciphertext + signature: pack call decoded by argument binding (functools.partial
+    keywords included) or (6) the struct-format / cstruct type tables; length argument compared with the payload
+    structurally; readers: field sources located by role, (2) read order by dominance / evaluation order inside one
+    statement, nothing else moving the stream in between; length-prefix decoder recognised structurally ((6) format
+    tables); the loop is analysed once with its loop-carried buffer / stream symbolic: loop test and advance compared in
+    polynomial normal form (3)(4).
+R8  (1)(3) keyword binding of the decrypt_packet call (verify <- self.verify_hmac, one key set via ** _asdict() or
+    explicit fields), field / parameter name tables (6), the stored flag traced to the constructor parameter and its default.
 """
 
 from __future__ import annotations
@@ -191,19 +225,34 @@ def run(ctx):
     rep.explanation = (
         "Static analysis of dissect/cobaltstrike/c2.py: CFG dominance (verify -> signature check -> decrypt), exit "
         "analysis of raise_for_signature, agreement of signer/verifier HMAC expressions and of the signature-length "
-        "constant across its sites, exhaustive evaluation of pad() over every residue of the block size, cipher "
-        "construction agreement, framing writer/reader agreement (subjects located by role: the arguments that feed the "
+        "constant across its sites; pad(): on every return path the appended count equals 16 - len(data) % 16 in polynomial "
+        "normal form over the atoms len(data) and (P) % m (stated lemmas), with residue facts from the dominating branch "
+        "conditions, cross-checked by interval abstract interpretation of the count (len(data) >= 0, block size 16); "
+        "cipher construction agreement, framing writer/reader agreement (subjects located by role: the arguments that feed the "
         "EncryptedPacket fields, the stream they are read from, the decoded length prefix), keyword binding of "
-        "decrypt_packet from BeaconKeys. Decides these structural necessary conditions on every path; does not decide "
-        "AES/HMAC behaviour or plaintext equality."
+        "decrypt_packet from BeaconKeys. Decides these structural necessary conditions on every path without executing or "
+        "interpreting the analysed code on concrete inputs; does not decide AES/HMAC behaviour or plaintext equality."
     )
     rep.not_decided = [
         "that AES-CBC/HMAC-SHA256 compute what they should (library)",
         "bit-flip rejection as such (follows from R1-R3 plus HMAC)",
         "plaintext equality for all inputs",
+        "pad() spellings outside the recognised terms (<data> + <fill> * <count>, <data>.ljust(<width>, <fill>); counts built "
+        "from + - * // % & `or` on len(data) and constants): reported as undecided, e.g. loops that append, divmod unpacking, join()",
     ]
-    rep.trusted_base = ["CPython ast", "networkx dominators", "AES.block_size == 16 (pycryptodome constant)"]
-    rep.assumptions = ["hmac.new / AES.new behave as documented", "no monkey-patching of c2 module functions at run time"]
+    rep.trusted_base = [
+        "CPython ast", "networkx dominators", "AES.block_size == 16 (pycryptodome constant)",
+        "csverif.absint interval transfer functions and SymPoly normal form",
+        "lemma L1: x // m == (x - x % m) / m (division identity)",
+        "lemma L2: (x + k*m) % m == x % m",
+        "lemma L3: (c*(x % m) + y) % m == (c*x + y) % m",
+        "lemma L4: (x % m or m) == m - (-x) % m",
+        "lemma L5: 0 <= x % m <= m - 1 and every residue occurs for some len(data) in 0..m-1",
+        "lemma L6: x & (2**j - 1) == x % 2**j for Python ints",
+        "bytes semantics: b * k is empty for k <= 0; ljust(w, f) appends max(0, w - len) copies of the one-byte f",
+    ]
+    rep.assumptions = ["hmac.new / AES.new behave as documented", "no monkey-patching of c2 module functions at run time",
+                       "pad() is called with its default block size (the call in encrypt_data is checked by R5)"]
 
     dp = ctx.repo.func("c2.decrypt_packet")
     rfs = ctx.repo.func("c2.EncryptedPacket.raise_for_signature")
@@ -686,207 +735,221 @@ def _r4_reader(ctx, f):
 
 
 # ---------------------------------------------------------------------------- R5
-class _Unsupported(Exception):
-    """The concrete evaluator met a construct it does not model: nothing can be concluded."""
+# Library constants the rule knows (pycryptodome): AES.block_size is 16.
+_KNOWN_ATTRS = {"AES.block_size": BLOCK, "Crypto.Cipher.AES.block_size": BLOCK, "Cryptodome.Cipher.AES.block_size": BLOCK}
 
 
-class _Return(Exception):
-    def __init__(self, value):
-        self.value = value
+def _kconst(e):
+    """Constant folding of a constant expression in which AES.block_size is the library constant 16; None if e is not
+    constant.  (Device 6: nothing of the analysed code is run, only literals are folded.)"""
+    if e is None:
+        return None
+
+    class _K(ast.NodeTransformer):
+        def visit_Attribute(self, node):
+            if dotted(node) in _KNOWN_ATTRS:
+                return ast.copy_location(ast.Constant(value=_KNOWN_ATTRS[dotted(node)]), node)
+            return node
+
+    return _cval(_K().visit(copy.deepcopy(e)))
 
 
-_BIN = {
-    ast.Add: lambda a, b: a + b, ast.Sub: lambda a, b: a - b, ast.Mult: lambda a, b: a * b, ast.FloorDiv: lambda a, b: a // b,
-    ast.Mod: lambda a, b: a % b, ast.BitAnd: lambda a, b: a & b, ast.BitOr: lambda a, b: a | b, ast.BitXor: lambda a, b: a ^ b,
-    ast.LShift: lambda a, b: a << b, ast.RShift: lambda a, b: a >> b,
-}
-_CMP = {
-    ast.Eq: lambda a, b: a == b, ast.NotEq: lambda a, b: a != b, ast.Lt: lambda a, b: a < b, ast.LtE: lambda a, b: a <= b,
-    ast.Gt: lambda a, b: a > b, ast.GtE: lambda a, b: a >= b, ast.Is: lambda a, b: a is b, ast.IsNot: lambda a, b: a is not b,
-    ast.In: lambda a, b: a in b, ast.NotIn: lambda a, b: a not in b,
-}
-_PURE_FUNCS = {"len": len, "min": min, "max": max, "abs": abs, "divmod": divmod, "int": int, "bool": bool, "bytes": bytes, "bytearray": bytes}
-_PURE_METHODS = {"ljust", "rjust", "zfill", "center"}
-_KNOWN_ATTRS = {"AES.block_size": BLOCK}
+class _PadTerms:
+    """Polynomial normal form (absint.SymPoly) of the integer expressions of pad(), over the atoms
+
+        n            = len(<data parameter>)                    (an integer >= 0)
+        (P) % m      for a polynomial P with integer coefficients over integer atoms and a constant m >= 1
+
+    Parameters with a constant default (the block size) are replaced by that constant (named assumption: pad() is called
+    with its defaults - the call in encrypt_data is checked by the R5 AGREE obligation).  Algebraic lemmas, for integers
+    x, y, c, k and a constant integer m >= 1:
+
+      L1  x // m == (x - x % m) / m                          (division identity x == m * (x // m) + x % m)
+      L2  (x + k * m) % m == x % m                           (a multiple of m does not change the residue)
+      L3  (c * (x % m) + y) % m == (c * x + y) % m           (x % m is congruent to x; congruence respects + and *)
+      L4  (x % m or m) == m - (-x) % m                       (x % m == 0: both sides m; else (-x) % m == m - x % m);
+          `t if t else m` is the same expression as `t or m`
+      L5  0 <= x % m <= m - 1, and x % m takes each of these values (x = 0 .. m - 1 are lengths of byte strings)
+      L6  x & (2**j - 1) == x % 2**j                         (the low j bits of a Python int are its residue modulo 2**j)
+
+    Anything else (other operators, non-constant moduli, atoms of unknown type under % or //) has no normal form: the
+    caller is undecided on it."""
+
+    def __init__(self, data, pconst):
+        self.data = data
+        self.pconst = dict(pconst)
+        self.modinfo = {}  # atom name -> (numerator polynomial, modulus)
+        self.int_atoms = {"n"}
+
+    # -- polynomial helpers
+    def _integral(self, p):
+        return all(v.denominator == 1 for v in p.terms.values()) and p.atoms() <= self.int_atoms
+
+    def mod_atom(self, p, m):
+        """Normal form of (p) % m for an integral polynomial p (L2, L3); None if p is not integral."""
+        if not self._integral(p):
+            return None
+        q = absint.SymPoly()
+        for mono, coef in p.terms.items():
+            if len(mono) == 1 and mono[0] in self.modinfo and self.modinfo[mono[0]][1] == m:
+                q = q + self.modinfo[mono[0]][0] * absint.SymPoly.const(coef)  # L3
+            else:
+                q = q + absint.SymPoly({mono: coef})
+        c = q.terms.get((), 0)
+        q = q - absint.SymPoly.const((c // m) * m)  # L2
+        if q.is_const():
+            return absint.SymPoly.const(q.const_value() % m)
+        name = f"({q!r}) % {m}"
+        self.modinfo[name] = (q, m)
+        self.int_atoms.add(name)
+        return absint.SymPoly.atom(name)
+
+    def _single_atom(self, p):
+        if len(p.terms) == 1:
+            (mono, coef), = p.terms.items()
+            if len(mono) == 1 and coef == 1:
+                return mono[0]
+        return None
+
+    def _subst(self, x):
+        if isinstance(x, ast.Name) and x.id in self.pconst:
+            return absint.SymPoly.const(self.pconst[x.id])
+        if isinstance(x, ast.Attribute) and dotted(x) in _KNOWN_ATTRS:
+            return absint.SymPoly.const(_KNOWN_ATTRS[dotted(x)])
+        if isinstance(x, ast.Constant) and isinstance(x.value, bool):
+            return None
+        if isinstance(x, ast.Call) and dotted(x.func) == "len" and len(x.args) == 1 and not x.keywords \
+                and dotted(_strip_bytes(x.args[0])) == self.data:
+            return absint.SymPoly.atom("n")
+        if isinstance(x, ast.BinOp) and isinstance(x.op, (ast.Mod, ast.FloorDiv)):
+            a, b = self.nf(x.left), self.nf(x.right)
+            m = b.const_value() if b is not None else None
+            if a is None or m is None or m.denominator != 1 or m < 1:
+                return None
+            m = int(m)
+            r = self.mod_atom(a, m)
+            if r is None:
+                return None
+            if isinstance(x.op, ast.Mod):
+                return r
+            return (a - r).div_const(m)  # L1
+        if isinstance(x, ast.BinOp) and isinstance(x.op, ast.BitAnd):  # L6
+            a, b = self.nf(x.left), self.nf(x.right)
+            for p, c in ((a, b), (b, a)):
+                k = c.const_value() if c is not None else None
+                if p is not None and k is not None and k.denominator == 1 and k >= 1 and (int(k) & (int(k) + 1)) == 0:
+                    return self.mod_atom(p, int(k) + 1)
+            return None
+        or_parts = None
+        if isinstance(x, ast.BoolOp) and isinstance(x.op, ast.Or) and len(x.values) == 2:
+            or_parts = x.values
+        elif isinstance(x, ast.IfExp) and src(x.test) == src(x.body):
+            or_parts = [x.body, x.orelse]
+        if or_parts is not None:  # L4
+            a, b = self.nf(or_parts[0]), self.nf(or_parts[1])
+            name = self._single_atom(a) if a is not None else None
+            if name in self.modinfo and b is not None and b.const_value() == self.modinfo[name][1]:
+                num, m = self.modinfo[name]
+                neg = self.mod_atom(-num, m)
+                if neg is not None:
+                    return absint.SymPoly.const(m) - neg
+            return None
+        if isinstance(x, (ast.Name, ast.Attribute, ast.Call)):
+            return None  # default: an opaque atom (not known to be an integer)
+        return None
+
+    def nf(self, e):
+        return absint.sympoly(e, self._subst)
+
+    def residue(self, m=BLOCK):
+        """The atom n % m."""
+        return self.mod_atom(absint.SymPoly.atom("n"), m)
+
+    @staticmethod
+    def substitute(p, atom, value):
+        """p with `atom` replaced by the integer `value`."""
+        out = absint.SymPoly()
+        for mono, coef in p.terms.items():
+            t = absint.SymPoly.const(coef)
+            for a in mono:
+                t = t * (absint.SymPoly.const(value) if a == atom else absint.SymPoly.atom(a))
+            out = out + t
+        return out
 
 
-def _cev(e, env):
-    """Concrete value of a side-effect free expression over ints/bytes/bools/tuples (never executes repository code:
-    only the arithmetic, comparison, slicing and builtin operations listed above are interpreted)."""
-    try:
-        return _cev0(e, env)
-    except _Unsupported:
-        raise
-    except RecursionError:
-        raise _Unsupported("recursion")
-    except Exception as ex:  # the modelled operation itself failed (ZeroDivisionError, TypeError ...): not decided here
-        raise _Unsupported(f"{type(ex).__name__} evaluating {src(e)}")
-
-
-def _cev0(e, env):
-    if isinstance(e, ast.Constant):
-        return e.value
-    if isinstance(e, ast.Name):
-        if e.id in env:
-            return env[e.id]
-        raise _Unsupported("name " + e.id)
-    if isinstance(e, ast.Attribute):
-        d = dotted(e)
-        if d in _KNOWN_ATTRS:
-            return _KNOWN_ATTRS[d]
-        raise _Unsupported("attribute " + src(e))
-    if isinstance(e, ast.BinOp) and type(e.op) in _BIN:
-        a, b = _cev0(e.left, env), _cev0(e.right, env)
-        if isinstance(e.op, (ast.Mult, ast.LShift)) and any(isinstance(x, int) and abs(x) > 1 << 16 for x in (a, b)):
-            raise _Unsupported("large operand")
-        return _BIN[type(e.op)](a, b)
-    if isinstance(e, ast.UnaryOp):
-        v = _cev0(e.operand, env)
-        if isinstance(e.op, ast.USub):
-            return -v
-        if isinstance(e.op, ast.UAdd):
-            return +v
-        if isinstance(e.op, ast.Not):
-            return not v
-        if isinstance(e.op, ast.Invert):
-            return ~v
-    if isinstance(e, ast.BoolOp):
-        v = None
-        for x in e.values:
-            v = _cev0(x, env)
-            if isinstance(e.op, ast.And) and not v:
-                return v
-            if isinstance(e.op, ast.Or) and v:
-                return v
-        return v
-    if isinstance(e, ast.Compare):
-        left = _cev0(e.left, env)
-        for op, r in zip(e.ops, e.comparators):
-            right = _cev0(r, env)
-            if type(op) not in _CMP:
-                raise _Unsupported(src(e))
-            if not _CMP[type(op)](left, right):
-                return False
-            left = right
-        return True
-    if isinstance(e, ast.IfExp):
-        return _cev0(e.body, env) if _cev0(e.test, env) else _cev0(e.orelse, env)
-    if isinstance(e, (ast.Tuple, ast.List)):
-        vals = [_cev0(x, env) for x in e.elts]
-        return tuple(vals) if isinstance(e, ast.Tuple) else vals
-    if isinstance(e, ast.Subscript):
-        base = _cev0(e.value, env)
-        if isinstance(e.slice, ast.Slice):
-            lo = _cev0(e.slice.lower, env) if e.slice.lower is not None else None
-            hi = _cev0(e.slice.upper, env) if e.slice.upper is not None else None
-            st = _cev0(e.slice.step, env) if e.slice.step is not None else None
-            return base[lo:hi:st]
-        return base[_cev0(e.slice, env)]
-    if isinstance(e, ast.Call) and not any(k.arg is None for k in e.keywords) and not any(isinstance(a, ast.Starred) for a in e.args):
-        args = [_cev0(a, env) for a in e.args]
-        kw = {k.arg: _cev0(k.value, env) for k in e.keywords}
-        d = dotted(e.func)
-        if d in _PURE_FUNCS and d not in env:
-            if d in ("bytes", "bytearray") and args and isinstance(args[0], int) and args[0] > 1 << 16:
-                raise _Unsupported("large operand")
-            return _PURE_FUNCS[d](*args, **kw)
-        if isinstance(e.func, ast.Attribute) and e.func.attr in _PURE_METHODS:
-            recv = _cev0(e.func.value, env)
-            if isinstance(recv, (bytes, str)) and all(isinstance(a, (int, bytes, str)) for a in args) and not kw and (not args or not isinstance(args[0], int) or args[0] < 1 << 16):
-                return getattr(recv, e.func.attr)(*args)
-    raise _Unsupported(src(e))
-
-
-def _crun(body, env, fuel):
-    """Run a statement list concretely (assignments, if, while, return); raises _Return / _Unsupported."""
-    for st in body:
-        fuel[0] -= 1
-        if fuel[0] < 0:
-            raise _Unsupported("step limit")
-        if isinstance(st, ast.Assign):
-            v = _cev(st.value, env)
-            for t in st.targets:
-                _cassign(t, v, env)
-        elif isinstance(st, ast.AnnAssign):
-            if st.value is not None:
-                _cassign(st.target, _cev(st.value, env), env)
-        elif isinstance(st, ast.AugAssign) and isinstance(st.target, ast.Name) and type(st.op) in _BIN:
-            env[st.target.id] = _cev(ast.BinOp(left=ast.Name(id=st.target.id, ctx=ast.Load()), op=st.op, right=st.value), env)
-        elif isinstance(st, ast.Return):
-            raise _Return(_cev(st.value, env) if st.value is not None else None)
-        elif isinstance(st, ast.If):
-            _crun(st.body if _cev(st.test, env) else st.orelse, env, fuel)
-        elif isinstance(st, ast.While) and not st.orelse:
-            while _cev(st.test, env):
-                fuel[0] -= 1
-                if fuel[0] < 0:
-                    raise _Unsupported("step limit")
-                if any(isinstance(x, (ast.Break, ast.Continue)) for b in st.body for x in ast.walk(b)):
-                    raise _Unsupported("break/continue")
-                _crun(st.body, env, fuel)
-        elif isinstance(st, ast.Pass):
-            pass
-        elif isinstance(st, ast.Expr) and isinstance(st.value, ast.Constant):
-            pass
-        elif isinstance(st, ast.Assert):
-            if not _cev(st.test, env):
-                raise _Unsupported("assert fails")
-        else:
-            raise _Unsupported(type(st).__name__)
-
-
-def _cassign(t, v, env):
-    if isinstance(t, ast.Name):
-        env[t.id] = v
-    elif isinstance(t, (ast.Tuple, ast.List)) and isinstance(v, (tuple, list)) and len(v) == len(t.elts):
-        for te, ve in zip(t.elts, v):
-            _cassign(te, ve, env)
-    else:
-        raise _Unsupported("assignment target " + src(t))
-
-
-def _pad_model(f, data):
-    """Concrete result of pad(data) with every other parameter at its default."""
-    ps = params(f.node)
-    env = {ps[0]: data}
-    for p, d in param_defaults(f.node).items():
-        if p != ps[0]:
-            env[p] = _cev(d, {})
-    missing = [p for p in ps if p not in env]
-    if missing:
-        raise _Unsupported("parameters without default: " + ", ".join(missing))
-    try:
-        _crun(f.node.body, env, [2000])
-    except _Return as r:
-        return r.value
+def _fill_part(e):
+    """A padding operand `F * C`, `C * F` or a bare `F` (F a bytes literal): (F value, count expression | None for 1)."""
+    if isinstance(e, ast.Constant) and isinstance(e.value, bytes):
+        return e.value, None
+    if isinstance(e, ast.BinOp) and isinstance(e.op, ast.Mult):
+        for byts, cnt in ((e.left, e.right), (e.right, e.left)):
+            if isinstance(byts, ast.Constant) and isinstance(byts.value, bytes):
+                return byts.value, cnt
     return None
+
+
+def _pad_shape(f, r, data):
+    """Shape of the value a return statement of pad() yields, with temporaries inlined:
+    dict(fills=[bytes literal values], count=<AST of the number of appended fill units>, width=<AST of a ljust target>)
+    or None when the value is not recognised as `<data> + <fill> * <count> ...` / `<data>.ljust(<width>, <fill>)` / `<data>`."""
+    if r.value is None:
+        return None
+    v = _strip_bytes(_inl(f, r.value))
+    parts = [_strip_bytes(p) for p in _flatten_add(v)]
+    if dotted(parts[0]) == data:
+        fills, count = [], None
+        for p in parts[1:]:
+            fp = _fill_part(p)
+            if fp is None:
+                return None
+            byts, cnt = fp
+            fills.append(byts)
+            unit = ast.Constant(value=len(byts))
+            term = unit if cnt is None else (cnt if len(byts) == 1 else ast.BinOp(left=unit, op=ast.Mult(), right=cnt))
+            count = term if count is None else ast.BinOp(left=count, op=ast.Add(), right=term)
+        return dict(fills=fills, count=count if count is not None else ast.Constant(value=0), width=None)
+    if isinstance(v, ast.Call) and isinstance(v.func, ast.Attribute) and v.func.attr == "ljust" and dotted(_strip_bytes(v.func.value)) == data \
+            and not v.keywords and 1 <= len(v.args) <= 2:
+        fill = v.args[1] if len(v.args) == 2 else ast.Constant(value=b" ")
+        if not (isinstance(fill, ast.Constant) and isinstance(fill.value, bytes) and len(fill.value) == 1):
+            return None
+        ln = ast.Call(func=ast.Name(id="len", ctx=ast.Load()), args=[ast.Name(id=data, ctx=ast.Load())], keywords=[])
+        return dict(fills=[fill.value], count=ast.BinOp(left=v.args[0], op=ast.Sub(), right=ln), width=v.args[0])
+    return None
+
+
+def _residue_conditions(ctx, f, r, terms, res_atom):
+    """The branch conditions that dominate return r, read as facts about the residue atom n % 16:
+    (eqs, neqs, understood) - `understood` is False when some dominating condition is not of the form
+    <residue> == K / <residue> != K / truthiness of <residue>."""
+    from csverif.q import dominating_conditions
+
+    eqs, neqs, understood = set(), set(), True
+    for _text, pol, node in dominating_conditions(ctx, f, r):
+        e = _truth(_inl(f, node))
+        fact = None
+        if isinstance(e, ast.Compare) and len(e.ops) == 1 and isinstance(e.ops[0], (ast.Eq, ast.NotEq)):
+            a, b = terms.nf(e.left), terms.nf(e.comparators[0])
+            for p, c in ((a, b), (b, a)):
+                if p is not None and c is not None and terms._single_atom(p) == res_atom and c.is_const() and c.const_value().denominator == 1:
+                    fact = ("eq" if isinstance(e.ops[0], ast.Eq) == pol else "neq", int(c.const_value()))
+        elif not isinstance(e, ast.Compare):
+            p = terms.nf(e)
+            if p is not None and terms._single_atom(p) == res_atom:
+                fact = ("neq", 0) if pol else ("eq", 0)
+        if fact is None:
+            understood = False
+        elif fact[0] == "eq":
+            eqs.add(fact[1])
+        else:
+            neqs.add(fact[1])
+    return eqs, neqs, understood
 
 
 def r5(ctx):
     f = ctx.repo.func("c2.pad")
     text = "pad(data) == data + b'A' * (16 - len(data) % 16)"
-    # exhaustive over every residue modulo the block size (three periods), decided by concrete evaluation of the body
-    bad = None
-    reason = None
-    try:
-        for n in range(0, 3 * BLOCK + 2):
-            data = bytes((i % 60) + 1 for i in range(n))  # no b'A' inside
-            got = _pad_model(f, data)
-            want = data + b"A" * (BLOCK - n % BLOCK)
-            if not isinstance(got, (bytes, bytearray)) or bytes(got) != want:
-                if isinstance(got, (bytes, bytearray)) and bytes(got[:n]) == data:
-                    tail = bytes(got[n:])
-                    bad = f"len(data)={n}: appends {len(tail)} byte(s) {tail[:4]!r}{'..' if len(tail) > 4 else ''}, required {BLOCK - n % BLOCK} x b'A'"
-                else:
-                    bad = f"len(data)={n}: result {got!r:.60} is not data followed by padding"
-                break
-    except _Unsupported as ex:
-        reason = str(ex)
-    if reason is None:
-        ctx.ob("R5", "ABS", f, text, bad is None, "evaluated for every len(data) in 0..49 with the default block size: appends 1-16 bytes b'A' up to "
-               "the next multiple of 16" if bad is None else bad, f.node)
-    else:
-        _r5_pad_intervals(ctx, f, text, reason)
+    _r5_pad(ctx, f, text)
     # encrypt_data encrypts pad(data); decrypt_data returns cipher output unmodified
     enc = ctx.repo.func("c2.encrypt_data")
     dec = ctx.repo.func("c2.decrypt_data")
@@ -894,34 +957,106 @@ def r5(ctx):
     _r5_cipher_io(ctx, dec, "decrypt", None)
 
 
-def _r5_pad_intervals(ctx, f, text, reason):
-    """Fallback when the body of pad() cannot be evaluated concretely: interval analysis of the fill count."""
+def _r5_pad(ctx, f, text):
+    """pad(): on every return path the value is the unmodified data parameter followed by `16 - len(data) % 16` bytes b'A'.
+    Decided per return statement on symbolic terms (normal form + lemmas L1-L6 of _PadTerms, residue facts from the dominating
+    branch conditions) and by interval abstract interpretation of the pad count; never by evaluating the body."""
     ps = params(f.node)
-    init = {ps[0]: absint.abytes(0, None)}
-    for p, d in param_defaults(f.node).items():
-        if _cval(d) == BLOCK or dotted(d) == "AES.block_size":
-            init[p] = absint.aint(BLOCK, BLOCK)
-    it = absint.Interp(f.node, init)
+    if not ps:
+        ctx.undecided("R5", "ABS", f, text, "pad() has no data parameter", f.node)
+        return
+    data = ps[0]
+    pconst, missing = {}, []
+    dfl = param_defaults(f.node)
+    for p in ps[1:]:
+        k = _kconst(dfl.get(p))
+        if type(k) is int:
+            pconst[p] = k
+        else:
+            missing.append(p)
+    if missing:
+        ctx.undecided("R5", "ABS", f, text, "parameters without a constant integer default: " + ", ".join(missing), f.node)
+        return
+    if assignments_to(f.node, data) or any(assignments_to(f.node, p) for p in pconst):
+        ctx.undecided("R5", "ABS", f, text, "a parameter of pad() is rebound inside the function: the padded value is not located", f.node)
+        return
+    cfg = ctx.cfg(f)
+    rets = [s for s in statements(f.node) if isinstance(s, ast.Return) and cfg.has(s) and cfg.reaches(ENTRY, cfg.node(s))]
+    if not rets:
+        ctx.ob("R5", "ABS", f, text, False, "pad() returns nothing", f.node)
+        return
+    # interval / parity abstract interpretation of the body: data is a byte string of any length, the other parameters
+    # have their default values
+    init = {data: absint.abytes(0, None)}
+    for p, k in pconst.items():
+        init[p] = absint.aint(k, k, k % 2)
+    it = absint.Interp(f.node, init, consts=lambda d: absint.aint(_KNOWN_ATTRS[d], _KNOWN_ATTRS[d], 0) if d in _KNOWN_ATTRS else None)
     it.run()
-    rets = [s for s in statements(f.node) if isinstance(s, ast.Return)]
-    decided = 0
+    terms = _PadTerms(data, pconst)
+    res = terms.residue(BLOCK)
+    res_atom = terms._single_atom(res)
+    required = absint.SymPoly.const(BLOCK) - res
+    pending = []  # returns that are neither proved nor refuted: (return, count interval | None, reason)
+    joined = None  # join of the count intervals of all returns (None once one return has no interval)
+    all_itv = True
     for r in rets:
-        parts = _flatten_add(_inl(f, r.value)) if r.value is not None else []
-        if len(parts) == 2 and dotted(parts[0]) == ps[0] and isinstance(parts[1], ast.BinOp) and isinstance(parts[1].op, ast.Mult):
-            fill = parts[1]
-            byts, cnt = (fill.left, fill.right) if isinstance(fill.left, ast.Constant) else (fill.right, fill.left)
-            if isinstance(byts, ast.Constant) and isinstance(byts.value, bytes):
-                decided += 1
-                if byts.value != b"A":
-                    ctx.ob("R5", "ABS", f, text, False, f"fill byte is {src(byts)} (b'A' required)", r)
-                    continue
-                v = it.ev(cnt, it.before.get(id(r), {}))
-                if v.kind == "int" and v.itv.within(1, BLOCK):
-                    ctx.ob("R5", "ABS", f, text, True, f"pad count {src(cnt)} has interval {v.itv} for len(data) >= 0, block size 16; fill byte b'A'", r)
-                else:
-                    ctx.undecided("R5", "ABS", f, text, f"pad count {src(cnt)} has interval {v.itv}; not evaluable concretely ({reason})", r)
-    if not decided:
-        ctx.undecided("R5", "ABS", f, text, f"body of pad() is not evaluable ({reason}) and no return of the form data + b'A' * n was found", f.node)
+        shape = _pad_shape(f, r, data)
+        if shape is None:
+            all_itv = False
+            pending.append((r, None, f"returned value {src(r.value)} is not <data> + <fill> * <count> or <data>.ljust(<width>, <fill>)"))
+            continue
+        wrong = [b for b in shape["fills"] if set(b) - set(b"A")]
+        if wrong:
+            ctx.ob("R5", "ABS", f, text, False, f"fill byte is {wrong[0]!r} (b'A' required)", r)
+            all_itv = False
+            continue
+        v = it.ev(shape["count"], it.before.get(id(r), dict(init)))
+        itv = None
+        if v.kind == "int":
+            # b'A' * k is empty for k <= 0; ljust never shortens
+            itv = absint.Itv(max(v.itv.lo, 0) if v.itv.lo is not None else 0, max(v.itv.hi, 0) if v.itv.hi is not None else None)
+            joined = itv if joined is None else joined.join(itv)
+        else:
+            all_itv = False
+        cnt = terms.nf(shape["count"])
+        if cnt is None:
+            pending.append((r, itv, f"pad count {src(shape['count'])} has no normal form"))
+            continue
+        eqs, neqs, understood = _residue_conditions(ctx, f, r, terms, res_atom)
+        want = required
+        if len(eqs) == 1:
+            k = next(iter(eqs))
+            cnt, want = terms.substitute(cnt, res_atom, k), terms.substitute(want, res_atom, k)
+        diff = cnt - want
+        cond = f" where len(data) % 16 == {next(iter(eqs))}" if len(eqs) == 1 else ""
+        if not diff.terms:
+            ctx.ob("R5", "ABS", f, text, True,
+                   f"pad count {src(shape['count'])} equals 16 - len(data) % 16 in polynomial normal form{cond}; "
+                   f"interval of the count {itv if itv is not None else 'n/a'} for len(data) >= 0, block size 16; fill byte b'A'", r)
+            continue
+        # a constant, non-zero difference on a feasible path refutes the equation (L5: every residue 0..15 occurs)
+        feasible = understood and len(eqs) <= 1 and all(0 <= k < BLOCK and k not in neqs for k in eqs) \
+            and (eqs or len({k for k in neqs if 0 <= k < BLOCK}) < BLOCK)
+        if diff.is_const() and feasible:
+            ctx.ob("R5", "ABS", f, text, False,
+                   f"pad count is {cnt!r}{cond}, required {want!r}: {src(shape['count'])} differs from 16 - len(data) % 16 by {diff.const_value()}", r)
+            continue
+        pending.append((r, itv, f"pad count {src(shape['count'])} (normal form {cnt!r}) is not recognised as 16 - len(data) % 16"))
+    if cfg.falls_off_end():
+        all_itv = False
+        ctx.undecided("R5", "ABS", f, text + " [no return]", "a path through pad() ends without a return statement; whether it is feasible is not analysed", f.node)
+    # every pad length 1..16 is required for some input (L5: len(data) = 16 - k needs k bytes); the join of the count
+    # intervals over all returns over-approximates the lengths pad() can produce
+    if pending and all_itv and joined is not None:
+        lack = [k for k in (1, BLOCK) if joined.excludes(k)]
+        if lack:
+            k = lack[-1]
+            for r, itv, why in pending:
+                ctx.ob("R5", "ABS", f, text, False,
+                       f"the pad count lies in {joined} on every return path, but len(data) % 16 == {(BLOCK - k) % BLOCK} requires {k} byte(s) of padding ({why})", r)
+            return
+    for r, itv, why in pending:
+        ctx.undecided("R5", "ABS", f, text, why + (f"; interval of the count {itv}" if itv is not None else ""), r)
 
 
 def _r5_cipher_io(ctx, f, meth, pad_f):
@@ -973,12 +1108,8 @@ def _r5_cipher_io(ctx, f, meth, pad_f):
 
 
 def _block_ok(e):
-    if e is None:
-        return False
-    try:
-        return _cev(e, {}) == BLOCK
-    except _Unsupported:
-        return False
+    """Is e a constant expression with the value 16 (AES.block_size being the library constant 16)?"""
+    return _kconst(e) == BLOCK
 
 
 # ---------------------------------------------------------------------------- R6
